@@ -237,6 +237,9 @@ func (gm *gameMon) push(t *track, m ref.Move) bool {
 				c.Count("ev_clock100", 1)
 				if first {
 					c.Count("ev_clock100_first", 1)
+					if m.Kind == ref.KCastleK || m.Kind == ref.KCastleQ {
+						c.Count("ev_clock100_by_castling", 1)
+					}
 					if t.g.Start.Half > 0 {
 						c.Count("ev_clock100_first_from_fen_clock", 1)
 					}
